@@ -544,3 +544,28 @@ mod tests {
         assert!(result.is_err());
     }
 }
+
+#[cfg(feature = "verif-hooks")]
+impl Sender {
+    /// Read-only snapshot of internal containers (verification hook)
+    pub fn verif_snapshot(&self) -> crate::verif::SenderSnapshot {
+        let mut snap = crate::verif::SenderSnapshot {
+            fdtid: 0,
+            fdt_queue: Vec::new(),
+            fdt_current: None,
+            files_queue: Vec::new(),
+            files: Vec::new(),
+            sessions: Vec::new(),
+            fdt_session_busy: self.fdt_session.verif_toi().is_some(),
+        };
+        self.fdt.verif_fill(&mut snap);
+        for (priority, list) in &self.sessions {
+            snap.sessions.push((
+                *priority,
+                list.index,
+                list.sessions.iter().map(|s| s.verif_toi()).collect(),
+            ));
+        }
+        snap
+    }
+}
